@@ -1,5 +1,6 @@
 import NopModel.Variant
 import NopModel.OptCmp
+import NopModel.Handle
 /-! Driver engine for the lifetime machines (Variant / Optional / Entry / Result) and the
 Optional comparison operators. -/
 namespace Nop.Driver
@@ -74,6 +75,26 @@ def lifeStep (toks : List String) : Option String :=
     pure (" ".intercalate obs.toList ++ " | " ++ " ".intercalate (w.vars.map varStr) ++
       " | live=" ++ joinOr (w.live.map toString) ++ " log=" ++ joinOr (w.log.map evStr) ++
       " ub=" ++ (if w.ub then "1" else "0"))
+  | "uh" :: k :: ops => do
+    let k ← k.toNat?
+    let parse (tok : String) : Option UH.Op :=
+      match tok.splitOn "." with
+      | ["mkE", v] => do pure (.mkEmpty (← v.toNat?))
+      | ["mkV", v] => do pure (.mkValue (← v.toNat?))
+      | ["mC", v, s] => do pure (.moveCtor (← v.toNat?) (← s.toNat?))
+      | ["mA", v, s] => do pure (.moveAssign (← v.toNat?) (← s.toNat?))
+      | ["cl", v] => do pure (.close (← v.toNat?))
+      | ["rl", v] => do pure (.release (← v.toNat?))
+      | ["del", v] => do pure (.destroy (← v.toNat?))
+      | ["get", v] => do pure (.get (← v.toNat?))
+      | _ => none
+    let ops ← ops.mapM parse
+    let (w, obs) := ops.foldl (fun (acc : UH.W × Array String) op =>
+      let (w', o) := UH.step acc.1 op
+      (w', acc.2.push (match o with | .none => "-" | .value x => toString x | .skipped => "skip"))) (UH.W.init, #[])
+    let vars := (List.range k).map (fun v => match w.vars v with | none => "-" | some x => toString x)
+    pure (" ".intercalate obs.toList ++ " | " ++ " ".intercalate vars ++ " | closed=" ++ joinOr (w.closed.map toString) ++
+      " released=" ++ joinOr (w.released.map toString) ++ " next=" ++ toString w.next)
   | ["cmp", op, a, b] => do
     let a ← parseO a
     let b ← parseO b
